@@ -50,7 +50,7 @@ def contract(rep, S, f, clauses):
                 if need_ <= have:
                     hit = r
         if hit is None:
-            rep.bad("CONTRACT." + label, fwhere(f), "no %s is raised when %s" % (exc, label.replace("-", " ")))
+            rep.bad_form("CONTRACT." + label, fwhere(f), "no %s is raised when %s" % (exc, label.replace("-", " ")))
         else:
             rep.ok("CONTRACT." + label, fwhere(f, hit.node), "%s when %s" % (exc, label.replace("-", " ")))
 
